@@ -43,6 +43,8 @@ type c17step struct {
 	op    core.Op
 	extra string // "", "filesize", "unclean"
 	tail  []byte
+	// cutHeader: if the newest segment is header-only at that moment, cut it to 300 bytes instead of appending a tail
+	cutHeader bool
 }
 
 func segFingerprint(env *core.Env) string {
@@ -117,6 +119,27 @@ func runProgramOn(c *core.Ctx, fsk core.FSKind, cfg core.Config, keys [][]byte, 
 			n, err := db.FileSize()
 			add("%d filesize %d %s", i, n, e2s(err))
 			continue
+		case "backup":
+			// Backup with one write placed (through the verif yield hook) right after Backup captured the segment list:
+			// what ends up in the backup must not depend on the file system
+			wrote := false
+			core.SetYield(func(d *pogreb.DB, point string) {
+				if d == db && point == "backup:captured" && !wrote {
+					wrote = true
+					db.Put([]byte("written-during-backup"), core.MakeVal(i, 30))
+				}
+			})
+			bdir := env.Sub(fmt.Sprintf("bk-%d", i))
+			err := db.Backup(bdir)
+			core.SetYield(nil)
+			benv := *env
+			benv.Dir = bdir
+			add("%d backup %s %s", i, e2s(err), segFingerprint(&benv))
+			env.RemoveAllIn(bdir)
+			if fsk == core.FSOS || fsk == core.FSOSMMap {
+				os.RemoveAll(bdir)
+			}
+			continue
 		case "unclean":
 			// copy the directory while open, tear the newest segment, continue on the copy
 			nenv := core.NewEnv(fsk)
@@ -125,7 +148,13 @@ func runProgramOn(c *core.Ctx, fsk core.FSKind, cfg core.Config, keys [][]byte, 
 				return trace, fmt.Errorf("copy: %w", err)
 			}
 			segs := db.VerifSegments()
-			if len(segs) > 0 && len(st.tail) > 0 {
+			if len(segs) > 0 && st.cutHeader && segs[len(segs)-1].Size == 512 {
+				// the newest segment holds nothing but its header: cut the header itself (every file system must refuse alike)
+				name := filepath.Join(nenv.Dir, segs[len(segs)-1].Name)
+				if d, err := nenv.ReadFile(name); err == nil && len(d) == 512 {
+					nenv.WriteFile(name, d[:300])
+				}
+			} else if len(segs) > 0 && len(st.tail) > 0 {
 				name := filepath.Join(nenv.Dir, segs[len(segs)-1].Name)
 				f, err := nenv.FS.OpenFile(name, os.O_RDWR, 0640)
 				if err != nil {
@@ -350,7 +379,9 @@ func runC17(c *core.Ctx) {
 				tail = make([]byte, 1+rng.Intn(300))
 				rng.Read(tail)
 			}
-			steps = append(steps, c17step{extra: "unclean", tail: tail})
+			steps = append(steps, c17step{extra: "unclean", tail: tail, cutHeader: rng.Intn(3) == 0})
+		case 3:
+			steps = append(steps, c17step{extra: "backup"})
 		}
 	}
 	big := 0
@@ -380,6 +411,8 @@ func runC17(c *core.Ctx) {
 			c.Stat("recoveries", 1)
 		case strings.Contains(l, " open ok"):
 			c.Stat("clean_restarts", 1)
+		case strings.Contains(l, " backup ok"):
+			c.Stat("backups_with_write_in_window", 1)
 		case strings.Contains(l, "filesize"):
 			c.Stat("filesize_calls", 1)
 		case strings.Contains(l, "compact {CompactedSegments:") && !strings.Contains(l, "CompactedSegments:0"):
